@@ -10,6 +10,7 @@ from harness.props.c10 import S0, S1, S2
 LEVEL = ("Lean theorems c12_* (who answers, what, when; not-ready and stopped instances silent) for every event list + "
          "lock-step correspondence + answer oracle on the wrapped queue_send calls")
 W = {"find": 10, "life": 3, "ann": 1}
+S3 = C.Service(0x1111, 1, 2, 4, options_1=(scen.endpoint(9, 30511),))
 
 
 class Sc(scen.Scenario):
@@ -34,7 +35,12 @@ def make(rng, k):
     tm = SDV.TimingsSpec(initMin=init[0], initMax=init[1], reps=rng.randrange(0, 3), base=rng.choice([5, 20]),
                          cyclic=rng.choice([0, 60, 500]), coll=rng.choice([0, 5, 15]), refresh=None, rrMin=rr[0], rrMax=rr[1],
                          annTtl=rng.choice([3, 0xFFFFFF]))
-    return Sc(rng, tm, [S0, S1, S2][: rng.choice([1, 2, 3])], W, nsteps=rng.choice([40, 80, 120]), adversarial=True)
+    # instance sets: differing service ids, differing instance ids of one service, and (S3) the SAME service and instance id
+    # in another version - a request with a concrete instance id and a version wildcard then concerns several instances
+    svcs = rng.choice([[S0], [S0, S1], [S0, S1, S2], [S0, S3], [S0, S3, S2], [S3, S0, S1]])
+    sc = Sc(rng, tm, svcs, W, nsteps=rng.choice([40, 80, 120]), adversarial=True)
+    sc.find_services = scen.SERVICES + [(0x1111, 1, 2, 4)]
+    return sc
 
 
 def matches_find(svc: C.Service, f):
